@@ -2,6 +2,7 @@ package checks
 
 import (
 	"fmt"
+	"strings"
 
 	"verif/internal/fw"
 	"verif/internal/model"
@@ -23,6 +24,7 @@ type skCtx struct {
 	depth   int
 	inLoop  bool
 	counter string // innermost loop counter, "" outside loops
+	limVar  string // innermost loop whose limit is a variable: that variable ("" otherwise)
 	declOK  bool   // the position takes a declaration (a member of a block or of the program, not a bare branch / body)
 }
 
@@ -64,6 +66,11 @@ func (g *skGen) stmts(budget int, cx skCtx, emit func(s *model.N, used int)) {
 		emit(model.VarList([]string{"d", "e"}, []*model.N{model.Num(1), model.Num(2)}), 1)
 		emit(model.VarList([]string{"e", "d"}, []*model.N{nil, model.Num(2)}), 1)
 		emit(model.Fun("d", nil, model.Return(model.Num(3))), 1)
+	}
+	if g.decls && cx.limVar != "" {
+		// the limit variable of the enclosing loop lowered / raised from inside the loop
+		emit(model.ExprS(model.Asg(cx.limVar, model.Num(1))), 1)
+		emit(model.ExprS(model.Asg(cx.limVar, model.Num(4))), 1)
 	}
 	if cx.inLoop {
 		emit(model.Break(), 1)
@@ -142,6 +149,24 @@ func (g *skGen) stmts(budget int, cx skCtx, emit func(s *model.N, used int)) {
 			}
 			emit(hdr(model.Block(st...)), 1+u)
 		})
+	}
+	if g.decls {
+		// a for loop whose condition compares its counter with a variable (bare comparison, both operand
+		// orders) that the body may assign
+		lm, mv := fmt.Sprintf("lim%d", cx.depth), fmt.Sprintf("m%d", cx.depth)
+		ll := in
+		ll.inLoop, ll.counter, ll.limVar = true, mv, lm
+		for form := 0; form < 2; form++ {
+			form := form
+			g.seqs(budget-1, ll, func(st []*model.N, u int) {
+				cond := model.Bin("<", model.Id(mv), model.Id(lm))
+				if form == 1 {
+					cond = model.Bin(">=", model.Id(lm), model.Bin("+", model.Id(mv), model.Num(1)))
+				}
+				body := append([]*model.N{model.Print(model.Str("t"))}, st...)
+				emit(model.Block(model.Var(lm, model.Num(3)), model.For(model.Var(mv, model.Num(0)), cond, model.Asg(mv, model.Bin("+", model.Id(mv), model.Num(1))), model.Block(body...))), 1+u)
+			})
+		}
 	}
 	// for without an increment clause (the body bumps the counter first), and the bare (;;) form
 	kf := fmt.Sprintf("k%d", cx.depth)
@@ -267,7 +292,7 @@ func C05(c *fw.Ctx) {
 			if x == nil {
 				return
 			}
-			if (x.K == "var" && len(x.Names) > 0 && (x.Names[0] == "d" || x.Names[0] == "e")) || (x.K == "fun" && x.S == "d") {
+			if (x.K == "var" && len(x.Names) > 0 && (x.Names[0] == "d" || x.Names[0] == "e" || strings.HasPrefix(x.Names[0], "lim"))) || (x.K == "fun" && x.S == "d") {
 				hasDecl = true
 			}
 			for _, k := range x.A {
